@@ -101,6 +101,39 @@ def shrink_msgs(case, key="msgs"):
 
 
 # ----------------------------------------------------------------------------------- real code
+class Hang(Exception):
+    pass
+
+
+class guard:
+    """watchdog for one virtual-time run: a run that spins or blocks (e.g. the datetime-clock spin branch of
+    VirtualTimeScheduler.start re-acquiring its lock) is interrupted by SIGALRM and reported as raised 'HANG'"""
+
+    def __init__(self, seconds=10.0):
+        self.seconds = seconds
+
+    def __enter__(self):
+        import signal
+        import threading
+
+        self.on = threading.current_thread() is threading.main_thread()
+        if self.on:
+            def handler(signum, frame):
+                raise Hang()
+
+            self.old = signal.signal(signal.SIGALRM, handler)
+            signal.setitimer(signal.ITIMER_REAL, self.seconds)
+        return self
+
+    def __exit__(self, *exc):
+        import signal
+
+        if self.on:
+            signal.setitimer(signal.ITIMER_REAL, 0)
+            signal.signal(signal.SIGALRM, self.old)
+        return False
+
+
 def recorded(msgs):
     from reactivex.testing import ReactiveTest
 
@@ -136,7 +169,10 @@ def run_test(case, build, sources=("msgs",)):
         else:
             srcs.append(mk_source(sched, spec["src"], spec["msgs"]))
     try:
-        res = sched.start(lambda: build(sched, *srcs))
+        with guard():
+            res = sched.start(lambda: build(sched, *srcs))
+    except Hang:
+        return {"raised": "HANG"}
     except InjectedError as e:
         return {"raised": e.name}
     except Exception as e:  # noqa
@@ -169,3 +205,133 @@ def shape(case, io):
     term = next((n[0] for _, n in m if n[0] != "N"), "-")
     yield f"{case['op']}:{case['src']}:term={term}"
     yield f"{case['op']}:n={min(sum(1 for _, n in m if n[0] == 'N'), 5)}"
+
+
+def run_hist(case, build):
+    """The same experiment on HistoricalScheduler (datetime clock, tick = 1 s): hot/cold test observable over the datetime
+    scheduler, created at 100 s, subscribed at 200 s, disposed at 1000 s; times reported in whole seconds."""
+    from reactivex.notification import OnCompleted, OnError, OnNext
+    from reactivex.scheduler import HistoricalScheduler
+    from reactivex.testing.coldobservable import ColdObservable
+    from reactivex.testing.hotobservable import HotObservable
+    from reactivex.testing.recorded import Recorded
+
+    sched = HistoricalScheduler()
+    cold = case["src"] == "cold"
+
+    def note(n):
+        if n[0] == "N":
+            return OnNext(fw.dec(n[1]))
+        if n[0] == "C":
+            return OnCompleted()
+        return OnError(InjectedError(n[1]))
+
+    recs = [Recorded(timedelta(seconds=t) if cold else utc(t), note(n)) for t, n in case["msgs"]]
+    xs = (ColdObservable if cold else HotObservable)(sched, recs)
+    out = []
+    box = {}
+
+    def secs():
+        return int(sched.to_seconds(sched.now))
+
+    def do_create(s, st):
+        box["o"] = build(sched, xs)
+
+    def do_sub(s, st):
+        box["d"] = box["o"].subscribe(lambda v: out.append([secs(), ["N", enc(v)]]),
+                                      lambda e: out.append([secs(), ["E", fw.err_name(e)]]),
+                                      lambda: out.append([secs(), ["C"]]), scheduler=sched)
+
+    def do_dispose(s, st):
+        box["d"].dispose()
+
+    sched.schedule_absolute(utc(100), do_create)
+    sched.schedule_absolute(utc(SUB), do_sub)
+    sched.schedule_absolute(utc(STOP), do_dispose)
+    try:
+        with guard():
+            sched.start()
+    except Hang:
+        return {"raised": "HANG"}
+    except InjectedError as e:
+        return {"raised": e.name}
+    except Exception as e:  # noqa
+        return {"raised": type(e).__name__}
+
+    def sec(x):
+        if isinstance(x, (int, float)):
+            return None if x >= 9223372036854775807 else int(x)
+        return int(sched.to_seconds(x))
+
+    return {"out": out, "subs": [[[sec(s.subscribe), sec(s.unsubscribe)] for s in xs.subscriptions]]}
+
+
+# ----------------------------------------------------------------------------------- *_with_mapper helpers
+def gen_inner(rng, d):
+    """timeline (relative times) of an observable returned by a mapper: first signal next / completed / error / never"""
+    r = rng.choice([0, 0, 1, max(d - 1, 0), d, d, d + 1, 2 * d])
+    k = rng.random()
+    if k < 0.40:
+        tl = [[r, ["N", 0]]]
+        if rng.random() < 0.5:
+            tl.append([r + rng.choice([0, 3]), rng.choice([["N", 1], ["C"], ["E", "lateInnerErr"]])])
+        return tl
+    if k < 0.65:
+        return [[r, ["C"]]]
+    if k < 0.78:
+        return [[r, ["E", "innerErr"]]]
+    if k < 0.88:
+        return []
+    return [[r, ["N", 0]], [r, ["N", 1]], [r + 2, ["C"]]]
+
+
+def gen_inners(rng, d):
+    return [gen_inner(rng, d) for _ in range(rng.choice([1, 2, 3, 3]))]
+
+
+def inner_of(inners, k):
+    return inners[k % len(inners)] if inners else []
+
+
+def make_mapper(sched, case, off=0):
+    """the user's mapper: the k-th call returns a cold observable with timeline inners[(k+off) % n] (never() if empty) or
+    raises InjectedError('mapErr') when k == raise_at"""
+    import reactivex
+
+    calls = [0]
+
+    def mapper(x):
+        k = calls[0]
+        calls[0] += 1
+        if case.get("raise_at") is not None and k == case["raise_at"]:
+            raise InjectedError("mapErr")
+        tl = inner_of(case["inners"], k + off)
+        return sched.create_cold_observable(recorded(tl)) if tl else reactivex.never()
+
+    return mapper
+
+
+def conform(tl):
+    out = []
+    for t, n in tl:
+        out.append([t, n])
+        if n[0] != "N":
+            break
+    return out
+
+
+def merged_events(streams):
+    """streams in the order in which their messages were scheduled; stable sort by time = the (due, seq) order"""
+    ev = [e for s in streams for e in s]
+    return sorted(ev, key=lambda e: e[0])          # list.sort is stable
+
+
+def elem_streams(src_seen, inners, off=0):
+    """for every source element (ordinal k, arriving at t) the events of its inner observable (index k+off)"""
+    out = []
+    k = 0
+    for t, n in src_seen:
+        if n[0] == "N":
+            out.append([[t + r, ("inner", k + off, m)] for r, m in conform(inner_of(inners, k + off))])
+            k += 1
+    return out
